@@ -1565,7 +1565,7 @@ class Server:
         return await self.stor(connection, rest, "ab")
 
     async def rest(self, connection, rest):
-        if rest.isdigit():
+        if rest.isascii() and rest.isdigit():
             connection.restart_offset = int(rest)
             connection.response("350", f"restarting at {rest}")
         else:
